@@ -56,6 +56,9 @@ def oracle(case):
             tol = 0.02 * (natoms * 4 + 1)
             expect(got is not None and abs(got - want) <= tol, 'sampler:fragment-mass',
                    lambda: 'mass of %s is %r, expected %.3f (sum of atomic masses incl. hydrogens)' % (name, got, want))
+    if smp is not None and case['masses'] is not None:
+        expect(dict(smp.fragment_masses) == dict(case['masses']), 'sampler:fragment-mass',
+               lambda: 'given masses %r, sampler uses %r' % (case['masses'], dict(smp.fragment_masses)))
     if g is None:
         e, open_bonds = err
         if e.type in sampler.DEAD_END and sampler.dead_end_possible(case, smp, open_bonds):
